@@ -55,6 +55,9 @@ SliceNodes ==  \* slicers and sweeps
 CtxNodes ==    \* context processors
   { N0("Src0"), NK("Rename", "a", "b"), NK("Rename", "b", "a"), NK("Delete", "a", ""),
     NK("Template", "a", "b"), NK("Probe", "a", ""), N0("CtxW"), NK("Rename", "w", "a") }
+KeyNodes ==    \* key names that generated class names fold together (rename:a.b:w vs rename:a_b:w, delete, probes)
+  { N0("Src0"), NK("Probe", "a.b", ""), NK("Probe", "a_b", ""), NK("Rename", "a.b", "w"), NK("Rename", "a_b", "w"),
+    NK("Delete", "a.b", ""), NK("Delete", "a_b", ""), NK("Rename", "a.b", "a_b"), NK("Rename", "w", "a.b") }
 FailNodes ==   \* failures
   { N0("Src0"), N0("CtxWBad"), N0("Boom"), N0("Abort"), N0("Mul"), N0("Src"), N0("Sink"), N0("Sum"),
     NK("Probe", "", ""), WithBogus(N0("Sq")), N0("Sq") }
